@@ -26,6 +26,9 @@ type C11Scenario struct {
 	ShowDups  bool               `json:"show_dups"`
 	MinSev    string             `json:"min_severity"`
 	ConfigVar int                `json:"config_variant"`
+	// DeadPrimary: the configured uri of every server refuses connections and the healthy
+	// simulated server is its failover upstream - a static condition, answers stay a pure function of the query
+	DeadPrimary bool `json:"dead_primary"`
 }
 
 // rule palette: every entry is built to draw at least one problem from some check
@@ -95,10 +98,14 @@ func drawRuleFileC(rt *rapid.T, strict, withComments bool) string {
 	return sb.String()
 }
 
-func c11Config(variant, servers int) string {
+func c11Config(variant, servers int, deadPrimary bool) string {
 	var sb strings.Builder
 	sb.WriteString("parser {\n  relaxed = [\"relaxed/.*\"]\n}\n")
 	for i := 0; i < servers; i++ {
+		if deadPrimary {
+			fmt.Fprintf(&sb, "prometheus \"prom%c\" {\n  uri = \"http://dead%d:9090\"\n  failover = [\"http://prom%d:9090\"]\n  timeout = \"30s\"\n  rateLimit = 1000000000\n  concurrency = %d\n}\n", 'a'+i, i, i, 2+i*6)
+			continue
+		}
 		fmt.Fprintf(&sb, "prometheus \"prom%c\" {\n  uri = \"http://prom%d:9090\"\n  timeout = \"30s\"\n  rateLimit = 1000000000\n  concurrency = %d\n}\n", 'a'+i, i, 2+i*6)
 	}
 	if variant >= 1 {
@@ -137,7 +144,8 @@ func drawC11(rt *rapid.T) C11Scenario {
 			sc.Files = append(sc.Files, simFile{Path: fmt.Sprintf("%s/copy%d.yml", dir, i), Content: content})
 		}
 	}
-	sc.Files = append(sc.Files, simFile{Path: ".pint.hcl", Content: c11Config(sc.ConfigVar, sc.Servers)})
+	sc.DeadPrimary = sc.Servers > 0 && rapid.IntRange(0, 2).Draw(rt, "deadprimary") == 0
+	sc.Files = append(sc.Files, simFile{Path: ".pint.hcl", Content: c11Config(sc.ConfigVar, sc.Servers, sc.DeadPrimary)})
 	return sc
 }
 
@@ -193,6 +201,9 @@ func runC11(t *testing.T, sc C11Scenario, record bool) *detsim.Outcome {
 	}
 	if base.Reqs > 0 {
 		out.Probes["runs_with_online_checks"]++
+	}
+	if sc.DeadPrimary {
+		out.Probes["runs_with_failover"]++
 	}
 	// the schedule under test, three times with the same tape: map iteration order is the one
 	// source of nondeterminism no seam can pin, a disagreement among same-tape runs is a violation too
